@@ -311,6 +311,9 @@ func c43RunInner(c c43Case) (res verifkit.Result) {
 	}
 
 	stream := cl.Finish()
+	if st := cl.Wedged(); st != "" {
+		return verifkit.Fail("status:connection-wedged", "status connection (protocol %d, ops %+v): the client closed the connection but HandleConn never returned; its goroutine sits on a mutex that nothing releases (neither a response nor a close is possible any more):\n%s", c.Protocol, c.Ops, st)
+	}
 	if pv := cl.Panic(); pv != "" {
 		return verifkit.Fail("panic:HandleConn", "panic escaped HandleConn: %s", pv)
 	}
